@@ -492,7 +492,10 @@ def subst_val(v: Val, env: Dict[str, Any]) -> Val:
     if isinstance(v, Num):
         if v.sym is None and not v.prov:
             return v
-        return replace(v, sym=subst_sym(v.sym, env), prov=_subst_prov(v.prov, env))
+        s2 = subst_sym(v.sym, env)
+        if s2 is not v.sym and opq_dead(s2):
+            s2 = None  # a value number tied to a loop iteration does not survive that iteration
+        return replace(v, sym=s2, prov=_subst_prov(v.prov, env))
     if isinstance(v, Bool):
         if v.sym is None and not v.prov:
             return v
@@ -553,6 +556,16 @@ def _subst_tokname(t, env):
     if r[0] == "v":
         return r[1]
     return "*"
+
+
+def opq_dead(s, depth: int = 0) -> bool:
+    if s is None or not isinstance(s, tuple) or not s or depth > 80:
+        return False
+    if s[0] == "opq":
+        return "*" in s[3]
+    if s[0] in ("in", "rd", "elem", "const", "param", "lenterm", "len", "idx"):
+        return False
+    return any(opq_dead(a, depth + 1) for a in s[1:] if isinstance(a, tuple))
 
 
 def has_opq(s, depth: int = 0) -> bool:
